@@ -53,6 +53,31 @@ def fmt(pre, kind, L, R):
     return 'pre=%s  %s( %s , %s )' % (['t%d-t%d<=%d' % (t, f, d) for f, t, d in pre], KIND[kind], e(L), e(R))
 
 
+def finding_of(theory, pre, kind, L, R):
+    """known-finding class a scenario belongs to (see known_findings.json), or None"""
+    from fractions import Fraction
+    if kind == 5 and L[0] != 0 and L[1] != 0:
+        if theory == 'rdl' or L[0] != 1: return 'C12-bounds-two-variables'
+    a1, a2 = L[0] - R[0], L[1] - R[1]
+    k = Fraction(L[2], L[3]) - Fraction(R[2], R[3])
+    if kind == 6 and (a1 != 0 or a2 != 0) and (a1 == 0 or a2 == 0 or a1 == -a2):
+        if (a1, a2, k) not in ((1, -1, 0), (1, 0, 0), (0, 1, 0)): return 'C12-distance-of-expressions'
+    if kind == 7:
+        nl = (L[0] != 0) + (L[1] != 0); nr = (R[0] != 0) + (R[1] != 0)
+        if nl == 1 and nr == 1:
+            cl = L[0] or L[1]; cr = R[0] or R[1]
+            if not (k == 0 and cl == cr): return 'C12-equates-one-variable-each-side'
+    return None
+
+
+# one reproducer per recorded finding and theory: these queries are EXPECTED to fail while the finding is open
+REPRO = {
+    'C12-bounds-two-variables': {'idl': ([(1, 2, -1)], 5, (-1, 1, -2, 1), (0, 0, 1, 1)), 'rdl': ([(1, 2, 1), (2, 1, 0)], 5, (1, -1, 1, 2), (0, 0, 1, 1))},
+    'C12-distance-of-expressions': {'idl': ([(1, 2, 1), (2, 1, 0)], 6, (2, 0, -2, 1), (0, 2, 0, 1)), 'rdl': ([(1, 2, 1), (2, 1, 0)], 6, (2, 0, -2, 1), (0, 2, 0, 1))},
+    'C12-equates-one-variable-each-side': {'idl': ([(1, 2, -1)], 7, (0, 2, 0, 1), (2, 0, -2, 1)), 'rdl': ([(1, 2, -1)], 7, (0, 2, 0, 1), (2, 0, -2, 1))},
+}
+
+
 def jobs(tier):
     seed = int(os.environ.get('VERIF_SEED', '0') or 0)
     rng = random.Random(777 + seed)
@@ -73,8 +98,17 @@ def jobs(tier):
         scs = all_sc
         k = 6
     js = []
+    opn = open_findings('C12')
+    singles = []
     for theory, defs, units in (('idl', [], IDL_UNITS), ('rdl', ['RDL'], RDL_UNITS)):
+        for fid in opn:
+            if fid in REPRO and theory in REPRO[fid]:
+                pre, kind, L, R = REPRO[fid][theory]
+                singles.append(Job('%s/known-finding/%s' % (theory, fid), 'C12_dlrel.cpp', 'h_rel', units, 100, defs=defs, params=[1, len(scen(pre, kind, L, R))] + scen(pre, kind, L, R), timeout=240,
+                                   desc=theory + ' reproducer of a recorded finding: ' + fmt(pre, kind, L, R), kfonly=fid))
         for i, (pre, kind, L, R) in enumerate(scs):
+            if finding_of(theory, pre, kind, L, R) in opn:
+                continue  # inside the input class of a recorded, still open finding: not part of the claim, re-demonstrated by its reproducer
             js.append(Job('%s/%s/%04d' % (theory, KIND[kind], i), 'C12_dlrel.cpp', 'h_rel', units, 100, defs=defs, params=scen(pre, kind, L, R), timeout=240,
                           desc=theory + ': ' + fmt(pre, kind, L, R), bounds={'x_range': 6, 'coefficients': 2}))
-    return batch(js, k)
+    return singles + batch(js, k)
